@@ -26,6 +26,15 @@ PROVED here (all inputs, no bounds; axioms ⊆ {propext, Classical.choice, Quot.
 * `C04_lookahead_scan_terminates` — the look-ahead scans (`find_macro_expand_after_path`, `is_tuple_expr`) stop within
   `len - cur` steps without moving the cursor.
 * `C04_loop_result_independent_of_fuel` — the fuel of the model is not observable.
+* THE REAL GRAMMAR (`Model/CstGrammar.lean`: literal port of every grammar function and loop of `cst_parser.rs`, tied by exact
+  comparison of tree + error list with the real `parse_cst`, bodies pinned by hash — `C13_grammar_functions_pinned`):
+  `C04_grammar_recursion_terminates` — for EVERY grammar function `t`, EVERY parser state `s` and token list, a call of `t`
+  nests at most `need t s = rankBound·(tokens left) + rank t (peek s) ≤ 22·(tokens left) + 21` calls: with that much fuel the run
+  is complete and every larger fuel gives the same state (mutual recursion of the real grammar, not just the loop shapes; the
+  measure is checked against all 73 bodies by a verified static analysis, `C04_grammar_analysis_accepts_every_body`);
+  `C04_parser_terminates`, `C04_parser_fuel_irrelevant` — `Parser::parse` on ANY token list returns the same complete result for
+  every fuel ≥ `fuelBound n = 22·(n+1)+1` (n syntax tokens); `C04_parser_error_indices_in_range` — every error it records carries
+  `token_index = 0` or the raw index of a syntax token (`< tokens.len()`), which is what `C04_error_spans_inside` is fed.
 * `C04_named_loops_are_guarded` — in the loop list re-extracted from `cst_parser.rs` on every run, the four functions the
   statement names carry a loop of the guarded shape (and `tools/extract.py` refuses any loop outside the proven shapes).
 * `C04_error_spans_inside` — the span `parser_errors_to_reportable` gives to a parser error (`tokens[token_index]`, else the
@@ -540,6 +549,73 @@ theorem C04_stage_counter_counterexample : nestQuotes (255 + 1) 0 = none ∧ nes
 is left after three iterations by the recovery `bump`s alone. -/
 example : (iterate (guardedBody ⟨[1, 1, 1], [0, 1, 2]⟩ (fun _ => true) (fun _ => []) (fun _ => [])) 4 ⟨[⟨0, []⟩], 0, none⟩).map
     (fun r => (r.1.current, r.2)) = some (3, 3) := by decide +kernel
+
+/-! ## Termination of the real grammar (`Model/CstGrammar.lean`) -/
+
+/-- The static termination analysis (`Proofs/CstGrammarRank.lean`: abstract interpretation of a body over "a token was
+consumed since entry" / "still at the entry cursor with `peek ∈ pk`", refined at every test of the token under the cursor)
+accepts the body of EVERY grammar function and loop of the port: each call either follows a consumed token or goes to a tag of
+strictly smaller `rank` for every token that can still be under the cursor.  Evaluated by the kernel on the 73 bodies. -/
+theorem C04_grammar_analysis_accepts_every_body : ∀ t : Grammar.Tag, Grammar.tagOk t = true := Grammar.all_tags_ok
+
+/-- TERMINATION of the mutual recursion of the real grammar: for every environment (token list), every grammar function /
+loop `t` and every parser state `s`, fuel above `need t s = rankBound · (#syntax tokens − cursor) + rank t (peek s)` makes the
+run complete — no call below it runs out of fuel — and every larger fuel computes the same state.  `need ≤ 22·(tokens left) + 21`. -/
+theorem C04_grammar_recursion_terminates (E : Grammar.Env) (t : Grammar.Tag) (s : Grammar.St) (n : Nat)
+    (h : Grammar.need E t s < n) :
+    (∀ m, n ≤ m → Grammar.go E m t s = Grammar.go E n t s) ∧ (Grammar.go E n t s).oof = s.oof ∧
+    Grammar.need E t s ≤ 22 * (Grammar.len E - s.b.current) + 21 := by
+  obtain ⟨a, b, _⟩ := Grammar.go_complete E n t s h
+  refine ⟨a, b, ?_⟩
+  have := Grammar.hi_le t; have := Grammar.lo_le t
+  unfold Grammar.need Grammar.rankBound Grammar.rank
+  cases Grammar.peek E s with
+  | none => simp only; omega
+  | some k => simp only; split <;> omega
+
+/-- `Parser::parse` TERMINATES on every token list: with `n` syntax tokens, any fuel ≥ `fuelBound n = 22·(n+1)+1` gives a
+complete run (the ghost flag `oof` — "some call ran out of fuel" — stays false). -/
+theorem C04_parser_terminates (ks : List Kind) (widths : List Nat) (fuel : Nat)
+    (hf : Grammar.fuelBound (Preparse.preparse ks).tokenIndices.length ≤ fuel) :
+    (Grammar.parse (Grammar.mkEnv ks widths (Preparse.preparse ks)) fuel ks.toArray).oof = false := by
+  have hlen : Grammar.len (Grammar.mkEnv ks widths (Preparse.preparse ks)) = (Preparse.preparse ks).tokenIndices.length := by
+    simp [Grammar.len, Grammar.mkEnv]
+  exact (Grammar.parse_fuel _ ks.toArray fuel (by rw [hlen]; exact hf)).2
+
+/-- … and the fuel is not observable: any two fuels above the bound give the same tree, error list, cursor, token kinds. -/
+theorem C04_parser_fuel_irrelevant (ks : List Kind) (widths : List Nat) (fuel fuel' : Nat)
+    (hf : Grammar.fuelBound (Preparse.preparse ks).tokenIndices.length ≤ fuel)
+    (hf' : Grammar.fuelBound (Preparse.preparse ks).tokenIndices.length ≤ fuel') :
+    Grammar.parse (Grammar.mkEnv ks widths (Preparse.preparse ks)) fuel ks.toArray =
+      Grammar.parse (Grammar.mkEnv ks widths (Preparse.preparse ks)) fuel' ks.toArray := by
+  have hlen : Grammar.len (Grammar.mkEnv ks widths (Preparse.preparse ks)) = (Preparse.preparse ks).tokenIndices.length := by
+    simp [Grammar.len, Grammar.mkEnv]
+  rw [(Grammar.parse_fuel _ ks.toArray fuel (by rw [hlen]; exact hf)).1,
+      (Grammar.parse_fuel _ ks.toArray fuel' (by rw [hlen]; exact hf')).1]
+
+/-- Every error the parser records (any fuel) carries `token_index = 0` (`current_token_index()`'s `unwrap_or(0)` past the last
+token) or the raw index of a syntax token — in particular an index `< tokens.len()` whenever there is a token at all, so
+`parser_errors_to_reportable` never needs its fallback for it; `C04_error_spans_inside` covers every index anyway. -/
+theorem C04_parser_error_indices_in_range (ks : List Kind) (widths : List Nat) (hw : widths.length = ks.length) (fuel : Nat) :
+    ∀ e ∈ (Grammar.parse (Grammar.mkEnv ks widths (Preparse.preparse ks)) fuel ks.toArray).errs,
+      (e.tokenIndex = 0 ∨ (e.tokenIndex < ks.length ∧ Preparse.isSyntax (ks.getD e.tokenIndex Kind.Eof) = true)) ∧
+      e.tokenIndex ≤ ks.length := by
+  intro e he
+  obtain ⟨_, _, _, _, _, h⟩ := Grammar.parse_tokens_spec ks widths hw fuel
+  have := h e he
+  refine ⟨this, ?_⟩
+  rcases this with h0 | h1
+  · omega
+  · omega
+
+/-- non-vacuity: `fn{a` (the witness of T05) parses completely with the fuel of the bound, reports its three errors at raw
+indices inside the token list, and one unit of fuel is not enough -/
+example :
+    let ks : List Kind := [.Function, .BlockBegin, .Ident, .Eof]
+    let E := Grammar.mkEnv ks [2, 1, 1, 0] (Preparse.preparse ks)
+    (Grammar.parse E (Grammar.fuelBound 3) ks.toArray).oof = false ∧
+    (Grammar.parse E (Grammar.fuelBound 3) ks.toArray).errs.map (·.tokenIndex) = [0, 1, 1] ∧
+    (Grammar.parse E 1 ks.toArray).oof = true := by decide +kernel
 
 /-- non-vacuity: an out-of-range `token_index` falls back to the `Eof` token at `(len, len)` -/
 example : errorSpan (tokenize ⟨fun c => c == 'a', fun c => c == 'a'⟩ Mimium.Lexer.genTables "(é".toList) 7 = (3, 3) := by
